@@ -1,22 +1,29 @@
 // C19 — The sparse Rips filtration stays within its approximation guarantee.
 //
-// Per case: a finite metric space (n x n matrix D, exact triangle inequality verified by the generator), an epsilon, a
-// dim_max, one of the two constructors.  Gudhi::rips_complex::Sparse_rips_complex builds a Simplex_tree; its simplices and
-// values are read back through the public iteration interface and compared with
+// Per case: a finite point set with its n x n distance matrix D (exact families: triangle inequality verified by the
+// generator; rounded families: Euclidean distances of real coordinates in double), an epsilon (tables, U(0,1), 10^-k,
+// 1-10^-k), a dim_max (-1 .. INT_MAX), one of the two constructors.  Gudhi::rips_complex::Sparse_rips_complex builds a
+// Simplex_tree; its simplices and values are read back through the public iteration interface and compared with
 //   * the Rips filtration of D (oracle/flag.h: complete graph, vertex value 0, edge value = distance, which is the
 //     convention documented for Rips_complex: "the filtration value of each simplex is the diameter"),
-//   * persistence of both filtrations over Z_2 by oracle/zp_reduce.h,
+//   * persistence of both filtrations over Z_2 / Z_3 by oracle/zp_reduce.h,
 //   * the bottleneck decision procedure of c19_bottleneck.h in log scale, bound log(1/(1-eps)) (+1e-9), dimensions < dim_max.
+// Further configurations (exact construction, farthest-point ordering, H_0 at hundreds of points): c19_extra.h.
 #ifndef VERIF_C19_COMMON_H_
 #define VERIF_C19_COMMON_H_
 
 #include <gudhi/Sparse_rips_complex.h>
 #include <gudhi/Simplex_tree.h>
+#include <gudhi/distance_functions.h>
+#include <gudhi/choose_n_farthest_points.h>
+#include <boost/range/irange.hpp>
 #include "common/vh.h"
 #include "oracle/flag.h"
 #include "oracle/zp_reduce.h"
 #include "c19_bottleneck.h"
 #include <memory>
+#include <climits>
+#include <numeric>
 
 namespace c19 {
 
@@ -28,6 +35,10 @@ static const double kInf = std::numeric_limits<double>::infinity();
 struct Cloud {
   std::string family;
   Matrix D;  // full symmetric matrix, zero diagonal
+  // "rounded" families only: the coordinates (D = sqrt of the sum of squares in double, NOT an exact metric), given to
+  // the library as std::vector<double> points + Gudhi::Euclidean_distance
+  std::vector<std::vector<double>> P;
+  bool rounded = false;
   int n() const { return (int)D.size(); }
 };
 
@@ -196,6 +207,43 @@ inline Cloud gen_generic(vh::Rng& r, int n) {
   return c;
 }
 
+// Rounded, NOT exactly metric inputs, as users give them: real coordinates and the Euclidean distance in double.  The
+// distances are within an ulp of a true metric; the exact triangle inequality may fail in the last bit (collinear
+// points 0.1*k are the standard example).  No is_metric() filter for these; only distinctness of the points.
+inline Cloud gen_rounded(vh::Rng& r, int n) {
+  Cloud c; c.rounded = true;
+  for (int attempt = 0; attempt < 8; ++attempt) {
+    unsigned k = (unsigned)r.below(3);
+    std::vector<std::vector<double>> P;
+    if (k == 0) {  // uniform reals in the unit cube
+      int dim = 1 + (int)r.below(3);
+      c.family = "rounded_cube";
+      for (int i = 0; i < n; ++i) { std::vector<double> p(dim); for (auto& x : p) x = r.unit(); P.push_back(p); }
+    } else if (k == 1) {  // collinear multiples of a decimal step (along an axis or along a direction of the plane)
+      static const double step[] = {0.1, 0.3, 0.7, 1e-3};
+      double st = step[r.below(4)]; bool plane = r.chance(1, 2);
+      c.family = plane ? "rounded_collinear_2d" : "rounded_collinear_1d";
+      std::vector<long> ks; for (long i = 0; i < 3L * std::max(n, 1); ++i) ks.push_back(i);
+      r.shuffle(ks);
+      for (int i = 0; i < n; ++i) { double t = st * (double)ks[i]; P.push_back(plane ? std::vector<double>{t, 0.2 * (double)ks[i]} : std::vector<double>{t}); }
+    } else {  // noisy circle
+      c.family = "rounded_noisy_circle";
+      static const double noise[] = {0.0, 1e-3, 0.05, 0.3};
+      double nz = noise[r.below(4)];
+      for (int i = 0; i < n; ++i) { double t = 6.283185307179586 * r.unit(); P.push_back({std::cos(t) + nz * (r.unit() - 0.5), std::sin(t) + nz * (r.unit() - 0.5)}); }
+    }
+    c.P = P; c.D = matrix_from_points(P, L2);
+    bool distinct = true;
+    for (int i = 0; i < n && distinct; ++i) for (int j = i + 1; j < n; ++j) if (!(c.D[i][j] > 0)) { distinct = false; break; }
+    if (distinct) return c;
+  }
+  // (practically unreachable) fall back to distinct abscissae
+  c.family = "rounded_collinear_1d"; c.P.clear();
+  for (int i = 0; i < n; ++i) c.P.push_back({0.1 * (double)i});
+  c.D = matrix_from_points(c.P, L2);
+  return c;
+}
+
 // all cliques of g with at most max_dim+1 vertices, value = max over vertices and edges (same definition as
 // oracle::flag_complex, enumerated by extension instead of over all 2^n subsets so that n > 14 is affordable)
 inline void cliques_rec(const oracle::WGraph& g, int max_dim, std::vector<int>& cur, double val, int next, std::map<Simplex, double>& out) {
@@ -219,14 +267,15 @@ inline std::map<Simplex, double> flag_of(const oracle::WGraph& g, int max_dim) {
   return g.n() <= 14 ? oracle::flag_complex(g, max_dim) : cliques(g, max_dim);
 }
 
-enum Group { G_GRID = 0, G_GRAPHS, G_SCALES, G_GENERIC, G_ANY };
+enum Group { G_GRID = 0, G_GRAPHS, G_SCALES, G_GENERIC, G_ROUNDED, G_ANY };
 
 inline Cloud gen_cloud(vh::Rng& r, int group, int n) {
-  if (group == G_ANY) group = (int)r.below(4);
+  if (group == G_ANY) group = (int)r.below(5);
   switch (group) {
     case G_GRID: return gen_grid(r, n);
     case G_GRAPHS: { unsigned k = (unsigned)r.below(3); return k == 0 ? gen_circle(r, n) : k == 1 ? gen_tree(r, n) : gen_graph(r, n); }
     case G_SCALES: { unsigned k = (unsigned)r.below(4); return k <= 1 ? gen_cluster(r, n) : k == 2 ? gen_ultra(r, n) : gen_line(r, n); }
+    case G_ROUNDED: return gen_rounded(r, n);
     default: return gen_generic(r, n);
   }
 }
@@ -237,10 +286,20 @@ inline Cloud gen_cloud(vh::Rng& r, int group, int n) {
 // harness observes through ITS OWN distance functor / matrix which point the library started from (the first n-1
 // distance evaluations all involve that point) and rebuilds the object until the start equals the one drawn from the
 // case RNG.  Nothing of the check depends on that detection being right; it only restores replayability.
+struct SteerAbort {};  // thrown by the harness's OWN distance functor / matrix row: abandons a construction whose start is not the wanted one
 struct Recorder {
   std::vector<std::pair<int, int>> calls; size_t cap = 0; unsigned long total = 0;
-  void reset(size_t cap_) { calls.clear(); cap = cap_; total = 0; }
-  void note(int a, int b) { ++total; if (calls.size() < cap) calls.emplace_back(a, b); }
+  int n_ = 0, target_ = -1; bool steer_ = false;
+  void reset(size_t cap_, int n = 0, int target = -1, bool steer = false) { calls.clear(); cap = cap_; total = 0; n_ = n; target_ = target; steer_ = steer; }
+  void note(int a, int b) {
+    ++total;
+    if (calls.size() < cap) {
+      calls.emplace_back(a, b);
+      // as soon as the start is known (n-1 evaluations) and is not the wanted one, give up this construction: the
+      // exception unwinds through the library's constructor (which owns only standard containers at that point)
+      if (steer_ && (int)calls.size() == n_ - 1) { int s = start(n_); if (s >= 0 && s != target_) throw SteerAbort(); }
+    }
+  }
   // the point involved in all of the first n-1 evaluations, or -1
   int start(int n) const {
     if (n < 3 || (int)calls.size() < n - 1) return -1;
@@ -264,6 +323,41 @@ struct TriRow {
   double operator[](std::size_t j) const { rec->note(i, (int)j); return v[j]; }  // _GLIBCXX_ASSERTIONS traps j >= i
 };
 typedef std::vector<TriRow> TriMatrix;
+// std::vector<double> points + Gudhi::Euclidean_distance (the documented way to give a point cloud); the wrapper only
+// records which two points of the range were compared (by address: the library passes references into the range)
+struct EuclidRec {
+  const std::vector<std::vector<double>>* P; Recorder* rec;
+  double operator()(const std::vector<double>& a, const std::vector<double>& b) const {
+    rec->note((int)(&a - P->data()), (int)(&b - P->data()));
+    return Gudhi::Euclidean_distance()(a, b);
+  }
+};
+
+// Builds the Sparse_rips_complex until the library's random start is `target` (see above).  make() constructs one.
+template <class Sparse, class Make>
+std::unique_ptr<Sparse> build_steered(vh::Case& c, Recorder& rec, int n, int target, Make make, int& observed) {
+  std::unique_ptr<Sparse> sr;
+  long attempts = 0; std::set<int> starts_seen; bool steer = (n >= 3 && target >= 0);
+  const long limit = 1000 + 20L * n;
+  for (;;) {
+    rec.reset(n > 0 ? (size_t)n : 1, n, target, steer);
+    ++attempts;
+    try { sr.reset(make()); }
+    catch (const SteerAbort&) {
+      starts_seen.insert(rec.start(n));
+      if (attempts >= 40 && starts_seen.size() == 1) { c.count("start.library_looks_deterministic"); steer = false; }
+      else if (attempts >= limit) { c.count("start.target_not_reached"); steer = false; }
+      continue;
+    }
+    break;
+  }
+  observed = rec.start(n);
+  c.count("build.constructions", (uint64_t)attempts);
+  c.log("start_observed=" + vh::str(observed) + " constructions=" + vh::str(attempts));
+  if (observed >= 0 && observed == target) c.count("start.target_reached");
+  else if (n >= 3) c.count("start.unknown_or_other");
+  return sr;
+}
 
 // ------------------------------------------------------------------------------------------------ the case
 struct Params {
@@ -305,15 +399,23 @@ bool read_complex(vh::Case& c, ST& st, std::map<Simplex, double>& S, const std::
   return true;
 }
 
-// ST = simplex tree type; allow_mini = false for option sets promising contiguous vertex labels
-template <class ST>
+inline std::string dim_class(int dim_max, int n) {
+  if (dim_max == INT_MAX) return "int_max";
+  if (dim_max > 4 && dim_max > n) return "gt_n";
+  return vh::str(dim_max);
+}
+
+// ST = simplex tree type; SFV = Filtration_value template argument of Sparse_rips_complex (by default the tree's);
+// allow_mini = false for option sets promising contiguous vertex labels
+template <class ST, class SFV = typename ST::Filtration_value>
 void run_case(vh::Case& c, int group, bool validity_mode, bool allow_mini, bool large = false) {
   typedef typename ST::Filtration_value FV;
-  typedef Gudhi::rips_complex::Sparse_rips_complex<FV> Sparse;
+  typedef Gudhi::rips_complex::Sparse_rips_complex<SFV> Sparse;
   vh::Rng& r = c.rng;
   // the library rounds distances and 2*(d - lambda/eps) to Filtration_value (float for the fast_persistence option set)
-  const double rel_tol = std::max(1e-12, 8.0 * (double)std::numeric_limits<FV>::epsilon());
-  const double log_tol = std::max(1e-9, 8.0 * (double)std::numeric_limits<FV>::epsilon());
+  const double fv_eps = std::max((double)std::numeric_limits<FV>::epsilon(), (double)std::numeric_limits<SFV>::epsilon());
+  const double rel_tol = std::max(1e-12, 8.0 * fv_eps);
+  const double log_tol = std::max(1e-9, 8.0 * fv_eps);
 
   // ---- size
   int n;
@@ -327,14 +429,22 @@ void run_case(vh::Case& c, int group, bool validity_mode, bool allow_mini, bool 
     n = 15 + (int)r.below(34);  // 15..48
     p.dim_max = (n <= 24) ? 1 + (int)r.below(2) : 1;
   }
+  // dim_max <= 0 (the 1-skeleton is inserted whatever dim_max, nothing above it may appear; n <= 14 only: a library
+  // that ignores the bound builds all 2^n - 1 simplices, which must stay observable); dim_max far above n (INT_MAX is
+  // the default of the sparse_rips_persistence utility): the whole clique complex, n <= 9 only
+  if (!large && r.chance(1, 16)) p.dim_max = r.chance(1, 2) ? 0 : -1;
+  else if (!large && n <= 9 && r.chance(1, 12)) p.dim_max = r.chance(1, 2) ? INT_MAX : n + 1 + (int)r.below(5);
   p.mini = -kInf; p.maxi = kInf;
+  // dimension up to which the oracle enumerates Rips simplices; homology is compared in dimensions k < hom_dims
+  const int odim = std::min(std::max(p.dim_max, 1), std::max(n - 1, 1));
+  const int hom_dims = p.dim_max <= 0 ? 0 : std::min(p.dim_max, odim);
 
   // ---- metric
   Cloud cl;
   int tries = 0;
   for (;;) {
     cl = gen_cloud(r, group, n);
-    if (cl.n() == n && is_metric(cl.D)) break;
+    if (cl.n() == n && (cl.rounded || is_metric(cl.D))) break;
     c.count("gen.retry_not_exact_metric");
     if (++tries >= 8) { cl = gen_generic(r, n); break; }
   }
@@ -347,6 +457,7 @@ void run_case(vh::Case& c, int group, bool validity_mode, bool allow_mini, bool 
     if (sh != 0) {
       const double f = std::ldexp(1.0, sh);
       for (auto& row : cl.D) for (auto& x : row) x *= f;
+      for (auto& pt : cl.P) for (auto& x : pt) x *= f;  // (squares stay far from under/overflow: exact as well)
       c.count(sh < 0 ? "scale.pow2_negative" : "scale.pow2_positive");
       if (sh <= -30) c.count("scale.distances_below_1e-8");
     } else c.count("scale.unit");
@@ -356,10 +467,13 @@ void run_case(vh::Case& c, int group, bool validity_mode, bool allow_mini, bool 
   // ---- epsilon, bounds
   static const double eps_main[] = {0.01, 0.1, 0.3, 0.5, 0.9, 0.99};
   static const double eps_big[] = {1.0, 1.5, 2.0, 10.0};
+  std::string eps_src = "table";
   if (!validity_mode) {
     unsigned k = (unsigned)r.below(10);
-    if (k < 7) { static const unsigned w[] = {0, 1, 2, 2, 3, 3, 4, 4, 5, 5}; p.eps = eps_main[w[r.below(10)]]; }
-    else p.eps = (double)(1 + r.below(63)) / 64.0;
+    if (k < 5) { static const unsigned w[] = {0, 1, 2, 2, 3, 3, 4, 4, 5, 5}; p.eps = eps_main[w[r.below(10)]]; }
+    else if (k < 7) { p.eps = (double)(1 + r.below(63)) / 64.0; eps_src = "k/64"; }
+    else if (k < 9) { do p.eps = r.unit(); while (!(p.eps > 0)); eps_src = "uniform"; }
+    else { double t = std::pow(10.0, -(double)(1 + r.below(9))); bool hi = r.chance(1, 2); p.eps = hi ? 1.0 - t : t; eps_src = hi ? "1-10^-k" : "10^-k"; }
   } else {
     bool big = r.chance(1, 2);
     p.eps = big ? eps_big[r.below(4)] : (r.chance(1, 2) ? eps_main[r.below(6)] : (double)(1 + r.below(63)) / 64.0);
@@ -376,43 +490,40 @@ void run_case(vh::Case& c, int group, bool validity_mode, bool allow_mini, bool 
   }
   p.use_matrix = r.chance(1, 2);
   p.start_target = n >= 3 ? (int)r.below(n) : -1;
+  const bool twice = r.chance(1, 8);    // create_complex a second time on the same object
+  const long field = r.chance(1, 8) ? 3 : 2;  // coefficient field of the persistence comparison
 
   {
     std::ostringstream o; o.precision(17);
-    o << "family=" << cl.family << " n=" << n << " eps=" << p.eps << " dim_max=" << p.dim_max << " ctor=" << (p.use_matrix ? "distance_matrix" : "points+distance")
-      << " mini=" << p.mini << " maxi=" << p.maxi << " start_target=" << p.start_target;
+    o << "family=" << cl.family << " n=" << n << " eps=" << p.eps << " dim_max=" << p.dim_max << " ctor="
+      << (p.use_matrix ? "distance_matrix" : cl.rounded ? "vector<double> points+Gudhi::Euclidean_distance" : "points+distance")
+      << " mini=" << p.mini << " maxi=" << p.maxi << " start_target=" << p.start_target << " create_complex_twice=" << twice << " field=Z_" << field;
     c.log(o.str());
+    if (cl.rounded) for (int i = 0; i < n; ++i) c.log("P[" + vh::str(i) + "]=" + vh::vstr(cl.P[i]));
     for (int i = 1; i < n; ++i) { std::vector<double> row(D[i].begin(), D[i].begin() + i); c.log("D[" + vh::str(i) + "][0.." + vh::str(i - 1) + "]=" + vh::vstr(row)); }
   }
   const uint64_t input_hash = vh::hash_str(vh::G().history);  // the case's content: metric, epsilon, dim_max, ctor, bounds, start
-  c.count("family." + cl.family); c.count("eps." + eps_class(p.eps)); c.count("dim_max." + vh::str(p.dim_max));
-  c.count(p.use_matrix ? "ctor.distance_matrix" : "ctor.points_distance");
+  c.count("family." + cl.family); c.count("eps." + eps_class(p.eps)); c.count("eps_src." + eps_src); c.count("dim_max." + dim_class(p.dim_max, n));
+  if (cl.rounded) c.count("input.rounded_not_exactly_metric");
+  c.count(p.use_matrix ? "ctor.distance_matrix" : cl.rounded ? "ctor.points_euclidean_distance" : "ctor.points_distance");
   c.count(n <= 5 ? "n.le5" : n <= 9 ? "n.6_9" : n <= 14 ? "n.10_14" : n <= 24 ? "n.15_24" : "n.25_48");
   if (p.mini != -kInf) c.count("bounds.mini"); if (p.maxi != kInf) c.count("bounds.maxi");
-  const std::string sig = std::string(p.eps >= 1 ? "eps>=1" : "eps<1") + (p.bounded() ? ",bounded" : ",unbounded") + ",dim_max=" + vh::str(p.dim_max);
+  const std::string sig = std::string(p.eps >= 1 ? "eps>=1" : "eps<1") + (p.bounded() ? ",bounded" : ",unbounded") + ",dim_max=" + dim_class(p.dim_max, n) + (cl.rounded ? ",rounded_input" : "")
+                          // the class documents its template argument as "the type used to store the filtration values of the simplicial complex"
+                          + (std::is_same<FV, SFV>::value ? "" : ",complex_value_type_differs");
 
   // ---- build the sparse Rips complex (rebuilt until the library's random start is the one of this case)
   Recorder rec;
   std::vector<PointId> pts; for (int i = 0; i < n; ++i) pts.push_back(PointId{i});
   TriMatrix tri; for (int i = 0; i < n; ++i) tri.push_back(TriRow{std::vector<double>(D[i].begin(), D[i].begin() + i), i, &rec});
   LookupDistance ld{&D, &rec};
-  std::unique_ptr<Sparse> sr;
-  int observed = -1, builds = 0; std::set<int> starts_seen;
-  for (;;) {
-    rec.reset(n > 0 ? (size_t)n : 1);
-    if (p.use_matrix) sr.reset(new Sparse(tri, p.eps, (FV)p.mini, (FV)p.maxi));
-    else sr.reset(new Sparse(pts, ld, p.eps, (FV)p.mini, (FV)p.maxi));
-    ++builds;
-    observed = rec.start(n);
-    starts_seen.insert(observed);
-    if (observed < 0 || observed == p.start_target) break;
-    if (builds >= 40 && starts_seen.size() == 1) { c.count("start.library_looks_deterministic"); break; }
-    if (builds >= 1000) { c.count("start.target_not_reached"); break; }
-  }
-  c.count("build.constructions", builds);
-  c.log("start_observed=" + vh::str(observed) + " constructions=" + vh::str(builds));
-  if (observed >= 0 && observed == p.start_target) c.count("start.target_reached");
-  else if (n >= 3) c.count("start.unknown_or_other");
+  EuclidRec er{&cl.P, &rec};
+  int observed = -1;
+  std::unique_ptr<Sparse> sr = build_steered<Sparse>(c, rec, n, p.start_target, [&]() -> Sparse* {
+    if (p.use_matrix) return new Sparse(tri, p.eps, (SFV)p.mini, (SFV)p.maxi);
+    if (cl.rounded) return new Sparse(cl.P, er, p.eps, (SFV)p.mini, (SFV)p.maxi);
+    return new Sparse(pts, ld, p.eps, (SFV)p.mini, (SFV)p.maxi);
+  }, observed);
 
   ST st;
   sr->create_complex(st, p.dim_max);
@@ -426,21 +537,31 @@ void run_case(vh::Case& c, int group, bool validity_mode, bool allow_mini, bool 
     o << " | #simplices=" << S.size();
     c.log(o.str());
   }
+  if (twice) {  // the object is not consumed by create_complex: a second complex filled from it is the same complex
+    c.log("create_complex again into a fresh complex");
+    ST st2; sr->create_complex(st2, p.dim_max);
+    std::map<Simplex, double> S2;
+    if (!read_complex(c, st2, S2, sig)) return;
+    c.count("cmp.repeat.create_complex");
+    if (S2 != S) { c.violation("repeat.create_complex_equal", sig, "second create_complex on the same object: " + vh::str(S2.size()) + " simplices, first: " + vh::str(S.size()) + " (or different values)"); return; }
+  }
 
   // ---- Rips side (independent): complete graph, vertex value 0, edge value = distance
   oracle::WGraph g = oracle::make_graph(n);
   for (int i = 0; i < n; ++i) for (int j = 0; j < n; ++j) if (i != j) g.w[i][j] = D[i][j];
-  std::map<Simplex, double> R = flag_of(g, p.dim_max);
+  std::map<Simplex, double> R = flag_of(g, odim);
   if (n >= 2 && n <= 10) {  // keep the two enumerators honest against each other
     c.count("selfcheck.rips_enumerators");
-    if (cliques(g, p.dim_max) != R) { c.violation("harness.selfcheck", "rips_enumerators_disagree", "c19::cliques != oracle::flag_complex"); return; }
+    if (cliques(g, odim) != R) { c.violation("harness.selfcheck", "rips_enumerators_disagree", "c19::cliques != oracle::flag_complex"); return; }
   }
   c.count("size.rips_simplices", R.size()); c.count("size.sparse_simplices", S.size());
 
-  // ---- validity: vertex labels, values, closed under faces, monotone   (every epsilon, with and without bounds)
+  // ---- validity: vertex labels, values, closed under faces, monotone, dimension   (every epsilon, with and without bounds)
+  int top_dim = -1;
   for (auto& kv : S) {
     const Simplex& s = kv.first; double f = kv.second;
     c.count("cmp.valid.simplex");
+    top_dim = std::max(top_dim, (int)s.size() - 1);
     for (long v : s) if (v < 0 || v >= n) { c.violation("valid.vertex_is_an_input_point", sig, "simplex " + oracle::show(s) + " uses a label outside [0,n)"); return; }
     if (!(f == f)) { c.violation("valid.value_is_a_number", sig, "value of " + oracle::show(s) + " is NaN"); return; }
     if (s.size() == 1 && f != 0) { c.violation("valid.vertex_value_zero", sig, "vertex " + oracle::show(s) + " has value " + vh::str(f)); return; }
@@ -451,9 +572,19 @@ void run_case(vh::Case& c, int group, bool validity_mode, bool allow_mini, bool 
         if (it == S.end()) { c.violation("valid.closed_under_faces", sig + ",simplex_dim=" + vh::str(s.size() - 1), "face " + oracle::show(face) + " of " + oracle::show(s) + " missing"); return; }
         if (it->second > f) { c.violation("valid.monotone", sig + ",simplex_dim=" + vh::str(s.size() - 1), "face " + oracle::show(face) + " value " + vh::str(it->second) + " > " + oracle::show(s) + " value " + vh::str(f)); return; }
       }
-    if ((int)s.size() - 1 > std::max(p.dim_max, 1)) c.count("info.simplex_above_dim_max");
+    // "expands it with all the cliques, stopping at a given maximal dimension": the graph (dimension 1) is inserted
+    // whatever dim_max, nothing of a dimension above max(dim_max, 1) may exist
+    if ((int)s.size() - 1 > std::max(p.dim_max, 1)) {
+      c.violation("valid.dimension_le_dim_max", sig, "simplex " + oracle::show(s) + " of dimension " + vh::str(s.size() - 1) + " in a complex created with dim_max=" + vh::str(p.dim_max));
+      return;
+    }
     if (f > (double)(FV)p.maxi) c.count("info.value_above_maxi");
   }
+  c.count("cmp.valid.dimension_le_dim_max");
+  if (p.dim_max <= 0) { c.count("state.dim_max_le0"); if (top_dim == 1) c.count("state.dim_max_le0_graph_only"); }
+  if (p.dim_max > 4) { c.count("state.dim_max_above_n"); if (top_dim >= 4) c.count("state.dim_max_above_n_top_dim_ge4"); }
+  // Simplex_tree::dimension() is documented as an upper bound of the dimension
+  if (st.dimension() < top_dim) { c.violation("valid.dimension_is_upper_bound", sig, "dimension() = " + vh::str(st.dimension()) + " < dimension of an enumerated simplex " + vh::str(top_dim)); return; }
   if (validity_mode) c.count(p.eps >= 1 ? "validity.eps_ge1" : "validity.eps_lt1_bounded");
   if (p.bounded() && (int)S.size() < (int)R.size()) c.count("state.bounded_and_smaller");
   {
@@ -479,6 +610,7 @@ void run_case(vh::Case& c, int group, bool validity_mode, bool allow_mini, bool 
 
   if (p.guaranteed()) {
     c.count("guarantee.cases");
+    if (cl.rounded) c.count("guarantee.cases_rounded_input");
     // state classes of the edges: kept at distance / raised / dropped; simplices removed by the vertex-death blocker
     oracle::WGraph sg = oracle::make_graph(n);
     unsigned e_exact = 0, e_raised = 0, e_dropped = 0;
@@ -488,7 +620,7 @@ void run_case(vh::Case& c, int group, bool validity_mode, bool allow_mini, bool 
       else { sg.w[i][j] = sg.w[j][i] = it->second; if (it->second > D[i][j] * (1 + rel_tol)) ++e_raised; else ++e_exact; }
     }
     c.count("edge.kept_at_distance", e_exact); c.count("edge.raised", e_raised); c.count("edge.dropped", e_dropped);
-    size_t flag_of_sparse_graph = flag_of(sg, p.dim_max).size();
+    size_t flag_of_sparse_graph = flag_of(sg, odim).size();
     if (flag_of_sparse_graph > S.size()) { c.count("state.blocker_removed_simplices"); c.count("simplex.blocked", flag_of_sparse_graph - S.size()); }
     if (smaller) c.count("state.sparse_strictly_smaller");
     if (raised) c.count("state.some_value_raised");
@@ -497,24 +629,29 @@ void run_case(vh::Case& c, int group, bool validity_mode, bool allow_mini, bool 
     // all input points are vertices (a missing vertex is an H_0 bar of infinite log-length that nothing can match)
     for (int i = 0; i < n; ++i) if (!S.count(Simplex{i})) { c.violation("guarantee.all_points_are_vertices", sig, "point " + vh::str(i) + " is not a vertex of the sparse complex"); return; }
 
-    // ---- persistence of both filtrations over Z_2, log-bottleneck decision per dimension < dim_max
-    std::vector<oracle::Interval> dR = oracle::simplicial_diagram(R, 2), dS = oracle::simplicial_diagram(S, 2);
-    const double delta = std::log(1.0 / (1.0 - p.eps));
-    for (int k = 0; k < p.dim_max; ++k) {
-      std::vector<Pt> A = log_points(dR, k), B = log_points(dS, k);
-      c.count("cmp.bottleneck.dim" + vh::str(k));
-      c.count("bars.rips.dim" + vh::str(k), A.size()); c.count("bars.sparse.dim" + vh::str(k), B.size());
-      if (!bottleneck_le(A, B, delta + log_tol)) {
-        double ex = bottleneck_exact(A, B);
-        std::ostringstream o; o.precision(17);
-        o << "dimension " << k << ": log-bottleneck distance " << ex << " > log(1/(1-eps)) = " << delta << " ; Rips diagram " << show_dim(dR, k) << " ; sparse diagram " << show_dim(dS, k);
-        c.violation("guarantee.log_bottleneck", sig + ",hom_dim=" + vh::str(k) + (std::isinf(ex) ? ",unmatched_infinite_bar" : ",finite_excess"), o.str());
-        return;
-      }
-      if (k >= 1 && !A.empty()) c.count("state.rips_has_bars_dim" + vh::str(k));
-      if (A.size() != B.size() || !bottleneck_le(A, B, rel_tol)) {
-        c.count("state.diagrams_differ.dim" + vh::str(k));
-        if (!bottleneck_le(A, B, delta / 2)) c.count("state.distance_above_half_bound.dim" + vh::str(k));
+    // ---- persistence of both filtrations over Z_2 (1/8: Z_3), log-bottleneck decision per dimension < dim_max
+    if (hom_dims > 0) {
+      c.count(field == 2 ? "field.z2" : "field.z3");
+      std::vector<oracle::Interval> dR = oracle::simplicial_diagram(R, field), dS = oracle::simplicial_diagram(S, field);
+      const double delta = std::log(1.0 / (1.0 - p.eps));
+      for (int k = 0; k < hom_dims; ++k) {
+        std::vector<Pt> A = log_points(dR, k), B = log_points(dS, k);
+        c.count("cmp.bottleneck.dim" + vh::str(k));
+        if (cl.rounded) c.count("cmp.bottleneck.rounded_input");
+        if (eps_src != "table" && eps_src != "k/64") c.count("cmp.bottleneck.eps_" + eps_src);
+        c.count("bars.rips.dim" + vh::str(k), A.size()); c.count("bars.sparse.dim" + vh::str(k), B.size());
+        if (!bottleneck_le(A, B, delta + log_tol)) {
+          double ex = bottleneck_exact(A, B);
+          std::ostringstream o; o.precision(17);
+          o << "dimension " << k << " over Z_" << field << ": log-bottleneck distance " << ex << " > log(1/(1-eps)) = " << delta << " ; Rips diagram " << show_dim(dR, k) << " ; sparse diagram " << show_dim(dS, k);
+          c.violation("guarantee.log_bottleneck", sig + ",hom_dim=" + vh::str(k) + (std::isinf(ex) ? ",unmatched_infinite_bar" : ",finite_excess"), o.str());
+          return;
+        }
+        if (k >= 1 && !A.empty()) c.count("state.rips_has_bars_dim" + vh::str(std::min(k, 4)));
+        if (A.size() != B.size() || !bottleneck_le(A, B, rel_tol)) {
+          c.count("state.diagrams_differ.dim" + vh::str(std::min(k, 4)));
+          if (!bottleneck_le(A, B, delta / 2)) c.count("state.distance_above_half_bound.dim" + vh::str(std::min(k, 4)));
+        }
       }
     }
     if (smaller && raised) c.nontrivial(input_hash);
